@@ -79,8 +79,20 @@ static inline av_t gen_scalar(Rng &r, char t, Store &st)
 struct XV { av_t v; bool is_arr = false; char arr_type = 0; std::vector<XV> elems;
             bool inf = false; bool inf_has_delta = false; av_t inf_delta, inf_start; };   // inf: endless range (only at the end of arrays)
 
+// start + i*delta, computed by the harness itself for the numeric types (the library's own
+// arithmetic helpers are part of what is being checked)
 static inline bool step_value(const av_t &start, const av_t &delta, int i, av_t &out)
 {
+    if(start.type == delta.type) {
+        out = start;
+        switch(start.type) {
+            case 'i': case 'c': out.val.i = (int32_t)((uint32_t)start.val.i + (uint32_t)i * (uint32_t)delta.val.i); return true;
+            case 'h': out.val.h = (int64_t)((uint64_t)start.val.h + (uint64_t)(int64_t)i * (uint64_t)delta.val.h); return true;
+            case 'f': { volatile float n = (float)i; volatile float m = n * delta.val.f; out.val.f = start.val.f + m; return true; }
+            case 'd': { volatile double n = (double)i; volatile double m = n * delta.val.d; out.val.d = start.val.d + m; return true; }
+            default: break;
+        }
+    }
     av_t n, m;
     if(!rtosc_arg_val_from_int(&n, delta.type, i)) return false;
     if(!rtosc_arg_val_mult(&n, &delta, &m)) return false;
